@@ -5,12 +5,19 @@ import os, sys, json, subprocess, shutil, re
 VERIF=os.path.dirname(os.path.dirname(os.path.abspath(__file__)))
 SCR='/var/tmp/verif-seedrepo.%d' % os.getpid()
 def sh(cmd, **kw): return subprocess.run(cmd, shell=True, capture_output=True, text=True, **kw)
-ids = sys.argv[1:] or sorted(os.listdir(VERIF+'/seeded'))
+args = sys.argv[1:]
+part = None
+if args and args[0].startswith('--part='):
+    part = args.pop(0)[len('--part='):]        # e.g. 0/3 : every third mutation starting at 0
+ids = args or sorted(os.listdir(VERIF+'/seeded'))
 ids=[i for i in ids if os.path.isdir(VERIF+'/seeded/'+i)]
+if part:
+    k, n = [int(x) for x in part.split('/')]
+    ids = [x for j, x in enumerate(ids) if j % n == k]
 claimed=[c['property_id'] for c in json.load(open(VERIF+'/MANIFEST.json'))['checks']]
-res_path=VERIF+'/seeded/RESULTS.json'
+res_path=VERIF+'/seeded/RESULTS%s.json' % (('.' + part.replace('/', 'of')) if part else '')
 results=json.load(open(res_path)) if os.path.exists(res_path) else {}
-env=dict(os.environ, VERIF_REPO=SCR, VERIF_GEN_TAG='_seed')
+env=dict(os.environ, VERIF_REPO=SCR, VERIF_GEN_TAG='_seed%d' % os.getpid())
 for i in ids:
     shutil.rmtree(SCR, ignore_errors=True)
     sh('rsync -a --exclude target --exclude .git /repo/ %s/' % SCR)
